@@ -67,24 +67,28 @@ Record rtx_out := mkRtxOut {
   o_rtx_ssrc : N      (* AttributeRtxSsrc *)
 }.
 
-(* [ppt], [pssrc]: remoteTrack.PayloadType() (uint8) and remoteTrack.SSRC().
-   Ok None = packet ignored ("BWE probe packet"). *)
-Definition rtx_unwrap (ppt pssrc : N) (b : list N) (i : N) : result (option rtx_out) :=
-  b0 <- of_opt (idx b 0) ;;
+(* csrcCount := b[0] & 0b1111; headerLength := uint16(12 + (4 * csrcCount));
+   if hasExtension { headerLength += 4 * (1 + BigEndian.Uint16(b[headerLength+2:headerLength+4])) } *)
+Definition rtx_header_length (b : list N) (b0 : N) : result N :=
   let hasExtension := 0 <? N.land b0 16 in
-  let hasPadding := 0 <? N.land b0 32 in
   let csrcCount := N.land b0 15 in
   let hl0 := u16 (u8 (12 + u8 (4 * csrcCount))) in
-  hl <- (if hasExtension then
-           match sl b (u16 (hl0 + 2)) (u16 (hl0 + 4)) with
-           | Some [x; y] => Ok (u16 (hl0 + u16 (4 * u16 (1 + be_val [x; y]))))
-           | _ => Panic
-           end
-         else Ok hl0) ;;
-  paddingLength <- (if hasPadding then
-                      if i =? 0 then Panic else of_opt (idx b (i - 1))
-                    else Ok 0) ;;
-  if (Z.of_N i - Z.of_N hl - Z.of_N paddingLength <? 2)%Z then Ok None else
+  if hasExtension then
+    match sl b (u16 (hl0 + 2)) (u16 (hl0 + 4)) with
+    | Some [x; y] => Ok (u16 (hl0 + u16 (4 * u16 (1 + be_val [x; y]))))
+    | _ => Panic
+    end
+  else Ok hl0.
+
+(* if hasPadding { paddingLength = int(b[i-1]) } *)
+Definition rtx_padding_length (b : list N) (b0 i : N) : result N :=
+  let hasPadding := 0 <? N.land b0 32 in
+  if hasPadding then
+    if i =? 0 then Panic else of_opt (idx b (i - 1))
+  else Ok 0.
+
+(* the attribute reads, the four header stores and the copy *)
+Definition rtx_rewrite (ppt pssrc : N) (b : list N) (i hl : N) : result rtx_out :=
   b1 <- of_opt (idx b 1) ;;
   s24 <- of_opt (sl b 2 4) ;;
   s812 <- of_opt (sl b 8 12) ;;
@@ -96,7 +100,17 @@ Definition rtx_unwrap (ppt pssrc : N) (b : list N) (i : N) : result (option rtx_
   b <- of_opt (put_u32 b 8 pssrc) ;;
   b <- of_opt (copy_within b hl (i - 2) (u16 (hl + 2)) i) ;;
   pkt <- of_opt (sl b 0 (i - 2)) ;;
-  Ok (Some (mkRtxOut pkt (N.land b1 127) (be_val s24) (be_val s812))).
+  Ok (mkRtxOut pkt (N.land b1 127) (be_val s24) (be_val s812)).
+
+(* [ppt], [pssrc]: remoteTrack.PayloadType() (uint8) and remoteTrack.SSRC().
+   Ok None = packet ignored ("BWE probe packet"). *)
+Definition rtx_unwrap (ppt pssrc : N) (b : list N) (i : N) : result (option rtx_out) :=
+  b0 <- of_opt (idx b 0) ;;
+  hl <- rtx_header_length b b0 ;;
+  paddingLength <- rtx_padding_length b b0 i ;;
+  if (Z.of_N i - Z.of_N hl - Z.of_N paddingLength <? 2)%Z then Ok None else
+  o <- rtx_rewrite ppt pssrc b i hl ;;
+  Ok (Some o).
 
 (* ------------------------------------------------------------------------ *)
 (* Specification side: RFC 3550 packet layout and the RFC 4588 rewrite.      *)
